@@ -2,6 +2,7 @@ package c20
 
 import (
 	"fmt"
+	"github.com/cloudwego/hertz/pkg/protocol"
 	"math"
 	"os"
 	"reflect"
@@ -66,6 +67,7 @@ type values struct {
 }
 
 var numLits = []float64{0, 1, 2, 3, 5, 7, 10, 0.5, 0.25, 1.5, 2.5, 7.5, 100, 255, 1000000}
+
 // numeric-looking strings stay strings: '01' != '1', '1.0' != '1', '10' < '9'
 var strLits = []string{"", "a", "b", "ab", "abc", "A", "é", "0", "x y", "it's", "1", "01", "1.0", "+1", "1e1", "10", "-0", "9"}
 var numFields = []string{"A", "B", "C", "D", ""}
@@ -451,6 +453,45 @@ func validate(expr string, v *values) (accepted bool, pan string) {
 	return err == nil, ""
 }
 
+// validateThroughBinder takes the route applications take: the request binder. mode 0: the first use
+// of the type is BindAndValidate; mode 1: the type is first used with plain Bind (which shares the
+// binder's per-type cache), then BindAndValidate; mode 2: BindAndValidate twice (warm cache).
+func validateThroughBinder(expr string, v *values, mode int) (accepted bool, pan string) {
+	fields := append([]reflect.StructField(nil), baseFields...)
+	fields = append(fields, reflect.StructField{Name: "X", Type: reflect.TypeOf(int(0)), Tag: reflect.StructTag("vd:" + strconv.Quote(expr))})
+	typ := reflect.StructOf(fields)
+	mk := func() reflect.Value {
+		obj := reflect.New(typ)
+		e := obj.Elem()
+		e.Field(0).SetInt(v.A)
+		e.Field(1).SetFloat(v.B)
+		e.Field(2).SetUint(uint64(v.C))
+		e.Field(3).SetInt(int64(v.D))
+		e.Field(4).SetString(v.S)
+		e.Field(5).SetString(v.T)
+		e.Field(6).SetBool(v.K)
+		e.Field(7).Set(reflect.ValueOf(v.L))
+		e.Field(8).SetInt(int64(v.X))
+		return obj
+	}
+	defer func() {
+		if r := recover(); r != nil {
+			pan = fmt.Sprintf("%v\n%s", r, debug.Stack())
+		}
+	}()
+	req := &protocol.Request{}
+	req.SetRequestURI("http://h/validate")
+	b := binding.DefaultBinder()
+	switch mode {
+	case 1:
+		_ = b.Bind(req, mk().Interface(), nil)
+	case 2:
+		_ = b.BindAndValidate(req, mk().Interface(), nil)
+	}
+	err := b.BindAndValidate(req, mk().Interface(), nil)
+	return err == nil, ""
+}
+
 func genValues(t *rapid.T) *values {
 	ints := []int64{0, 1, -1, 2, 3, 5, 7, 10, 100, -100, 255, 1 << 40}
 	floats := []float64{0, 1, -1, 0.5, -0.5, 0.25, 2.5, 7.5, -3.5, 10.75, 1e9, 3}
@@ -546,6 +587,13 @@ func TestC20Typed(t *testing.T) {
 		}
 		if verdicts[0] != verdicts[1] || verdicts[1] != verdicts[2] {
 			t.Fatalf("the same expression tree gives different verdicts depending on parenthesisation: minimal %q -> %v, full %q -> %v, redundant %q -> %v; values %+v", minimal, verdicts[0], full, verdicts[1], redundant, verdicts[2], *v)
+		}
+		// the binder's BindAndValidate gives the same verdict, whatever the type was used for before
+		mode := rapid.IntRange(0, 2).Draw(t, "binderHistory")
+		if acc, pan := validateThroughBinder(minimal, v, mode); pan != "" {
+			t.Fatalf("BindAndValidate panicked on vd:%q with values %+v: %s", minimal, *v, pan)
+		} else if acc != verdicts[0] {
+			t.Fatalf("vd:%q with values %+v: binding.Validate accepts=%v but BindAndValidate accepts=%v (history: %s)", minimal, *v, verdicts[0], acc, []string{"first use of the type", "the type was used with plain Bind before", "second BindAndValidate"}[mode])
 		}
 		if !ctx.undefined && verdicts[0] != want {
 			t.Fatalf("vd:%q with values %+v: validator accepted=%v, independent evaluator (documented precedence, float64 arithmetic) says %v; fully parenthesised: %q", minimal, *v, verdicts[0], want, full)
